@@ -190,3 +190,22 @@ func TestRegressC06(t *testing.T) {
 	}
 	rec.Done()
 }
+
+// F23 (C12/C13): an ExtendedDaemonSet whose own metadata carries the reserved name label with another value.
+func TestRegressC12(t *testing.T) {
+	rec := evid.New("TestRegressC12", "C12", "saved case of the fixed C12/C13 defect: the ExtendedDaemonSet itself carries extendeddaemonset.datadoghq.com/name with a foreign value")
+	c := sim.New(sim.Options{})
+	c.AddNode("n1", map[string]string{"zone": "a", "tier": "a"}, nil)
+	c.Add(&edsv1.ExtendedDaemonSet{ObjectMeta: metav1.ObjectMeta{Namespace: "ns1", Name: "foo", Labels: map[string]string{oracle.LabelEDSName: "bar", "team": "a"}}, Spec: edsv1.ExtendedDaemonSetSpec{Template: letterTpl('A')}})
+	var vs []mon.V
+	for i := 0; i < 4; i++ {
+		c.Advance(11 * time.Second)
+		r := c.Reconcile(sim.ActorEDS, "ns1", "foo")
+		vs = append(vs, mon.Check(r, mon.Of("rs-identity", "no-panic"), nil)...)
+	}
+	if n := len(c.AllERS()); n != 1 {
+		vs = append(vs, mon.V{Property: "C12", Monitor: "rs-identity", Sig: "C13/rs-identity/second-replica-set-for-template", Detail: fmt.Sprintf("%d replica sets after four reconciles of one template", n)})
+	}
+	regress(t, rec, "F23-eds-carries-the-reserved-name-label", vs, nil, "labels={extendeddaemonset.datadoghq.com/name: bar, team: a}")
+	rec.Done()
+}
